@@ -117,6 +117,7 @@ func checkC02(w *World, r *Report) {
 	}
 	c02BacktrackingChain(w, r, ra)
 	c02Order(w, r, ra)
+	c02Specificity(w, r, ra)
 }
 
 func c02FindRule(w *World, r *Report, ra *repoAnchors) {
@@ -1173,5 +1174,118 @@ func c08LookupKey(w *World, r *Report) {
 			}
 		}
 		r.Ob(ri, w.FnName(fn)+"|lookup-key-normalised", c.Pos(), !raw || norm, "the still percent-encoded RawPath is compared byte-wise with the rules' path expressions: /%41bc does not select the rule for /Abc")
+	}
+}
+
+// c02Specificity (C02.4): the lookup tries the children of a node in the order of specificity
+// (static text, then single-segment wildcard, then catch-all), and a less specific alternative
+// only after the more specific one found nothing and allowed backtracking.
+func c02Specificity(w *World, r *Report, ra *repoAnchors) {
+	ri := r.Rule("C02.4", 3, "the tree lookup prefers static text over a wildcard over a catch-all, and tries the next alternative only after the previous one found nothing and allowed backtracking")
+	fn := treeMethod(w, ra, "findNode")
+	if fn == nil {
+		r.Undecided(ri, "tree method findNode not found")
+		return
+	}
+	r.Analysed(w.FnName(fn))
+	kindOf := func(v ssa.Value) string {
+		_, p := accessPath(v)
+		for _, e := range p {
+			switch e {
+			case "staticChildren":
+				return "static"
+			case "wildcardChild":
+				return "wildcard"
+			case "catchAllChild":
+				return "catchall"
+			}
+		}
+		return ""
+	}
+	// attempts: the recursive descent into a child, or (catch-all) the match loop over its values
+	type attempt struct {
+		kind string
+		in   ssa.Instruction
+	}
+	var attempts []attempt
+	for _, ci := range callsIn(fn) {
+		c, ok := ci.(*ssa.Call)
+		if !ok {
+			continue
+		}
+		if callee := c.Common().StaticCallee(); callee != nil && callee.Name() == fn.Name() && len(c.Common().Args) > 0 {
+			if k := kindOf(c.Common().Args[0]); k != "" {
+				attempts = append(attempts, attempt{k, c})
+			}
+		}
+		if c.Common().IsInvoke() && c.Common().Method.Name() == "Match" {
+			for _, a := range c.Common().Args {
+				if k := kindOf(a); k == "catchall" {
+					attempts = append(attempts, attempt{k, c})
+					break
+				}
+			}
+		}
+	}
+	rank := map[string]int{"static": 0, "wildcard": 1, "catchall": 2}
+	seen := map[string]bool{}
+	for _, a := range attempts {
+		seen[a.kind] = true
+	}
+	for _, k := range []string{"static", "wildcard", "catchall"} {
+		if !seen[k] {
+			r.Undecided(ri, "no "+k+" attempt found in "+w.FnName(fn))
+			return
+		}
+	}
+	for _, a := range attempts {
+		for _, b := range attempts {
+			if rank[a.kind] >= rank[b.kind] {
+				continue
+			}
+			// a is more specific than b: a is never attempted after b within one node
+			r.Ob(ri, fmt.Sprintf("%s|%s-before-%s", w.FnName(fn), a.kind, b.kind), b.in.Pos(), !reachableAfter(b.in, a.in),
+				"the "+b.kind+" alternative of a node can be tried before its "+a.kind+" alternative: a less specific path expression wins over a more specific one")
+		}
+	}
+	// a less specific attempt is gated by "nothing found and backtracking allowed"
+	for _, b := range attempts {
+		if b.kind == "static" {
+			continue
+		}
+		var prev []*ssa.Call
+		for _, a := range attempts {
+			if rank[a.kind] < rank[b.kind] {
+				if c, ok := a.in.(*ssa.Call); ok && c.Common().StaticCallee() != nil && c.Common().StaticCallee().Name() == fn.Name() {
+					prev = append(prev, c)
+				}
+			}
+		}
+		ok := true
+		for _, pc := range prev {
+			// from the point after the earlier attempt, b is reachable only through the edges
+			// "found == nil" and "backtrack == true" of that attempt's results
+			for _, req := range []struct {
+				idx  int
+				kind FactKind
+			}{{0, FNil}, {3, FTrue}} {
+				cut := factCut(func(f Fact) bool {
+					if f.Kind != req.kind {
+						return false
+					}
+					for _, o := range w.Origins(f.V, nil) {
+						if isResult(pc, req.idx)(o) {
+							return true
+						}
+					}
+					return isResult(pc, req.idx)(f.V)
+				})
+				if reach(pc.Block(), cut)[b.in.Block()] && pc.Block() != b.in.Block() {
+					ok = false
+				}
+			}
+		}
+		r.Ob(ri, fmt.Sprintf("%s|%s-only-after-miss-and-backtracking", w.FnName(fn), b.kind), b.in.Pos(), ok,
+			"the "+b.kind+" alternative is tried although a more specific alternative found a match or forbade backtracking")
 	}
 }
